@@ -95,6 +95,39 @@ func MakeData(class string, n int, seed int64) []byte {
 			copy(b[n-300:], b[:300])
 		}
 		return b
+	case "farcopies":
+		// 1 MiB of noise, then nothing but copies of 4..8 bytes taken from random places of the
+		// preceding MiB: millions of short matches at large distances, i.e. tens of millions of
+		// directly coded distance bits (rare coincidences of the range coder need that volume)
+		b := make([]byte, n)
+		head := 1 << 20
+		if head > n/2 {
+			head = n / 2
+		}
+		r.Read(b[:head])
+		for i := head; i < n; {
+			l := 4 + r.Intn(5)
+			src := i - 1 - r.Intn(head-8)
+			if src < 0 {
+				src = 0
+			}
+			for k := 0; k < l && i < n; k++ {
+				b[i] = b[src+k]
+				i++
+			}
+		}
+		return b
+	case "noise200":
+		// uniform over 200 byte values: compresses to about 96 % - always kept in compressed form, so
+		// nearly n bytes of range-coder output are produced and decoded (carry propagation through
+		// runs of pending 0xFF bytes of every length that 1/256^k allows for this volume)
+		perm := r.Perm(256)
+		b := make([]byte, n)
+		r.Read(b)
+		for i, x := range b {
+			b[i] = byte(perm[int(x)*200>>8])
+		}
+		return b
 	case "maxlenruns":
 		// a few literals, then a unit of 1..9 bytes repeated to exactly unit+273+d bytes (d = 0..3):
 		// the match is cut at the maximum length and continued by a short repetition or a
@@ -110,6 +143,15 @@ func MakeData(class string, n int, seed int64) []byte {
 			if k%5 == 4 {
 				unit = make([]byte, 10+r.Intn(300)) // longer periods: other position states
 				r.Read(unit)
+			}
+			if k%3 == 1 {
+				// units made of 0x00 / 0xff (and one other byte): the byte that follows the cut match, and
+				// the byte it is compared with, are the extreme symbols of the matched-literal coder
+				for i := range unit {
+					unit[i] = []byte{0x00, 0x00, 0xff, byte(k)}[r.Intn(4)]
+				}
+				unit[len(unit)-1] = []byte{0x00, 0xff}[k/3%2]
+				unit[0] = unit[len(unit)-1]
 			}
 			total := len(unit) + 273 + (k+int(seed))%4
 			if k%7 == 6 {
